@@ -4,6 +4,7 @@ package main
 // applications with `go test -overlay` (nothing is written to /repo).
 
 import (
+	"strings"
 	"encoding/hex"
 	"encoding/json"
 	"log/slog"
@@ -78,8 +79,8 @@ func (r *vResult) record(class, op, outcome string, nontrivial bool, failure str
 		r.Samples = append(r.Samples, s+" => "+outcome)
 	}
 	if failure != "" && len(r.OracleFailures) < 20 {
-		if len(op) > 3000 {
-			op = op[:3000]
+		if len(op) > 400000 {
+			op = op[:400000]
 		}
 		r.OracleFailures = append(r.OracleFailures, vOracleFailure{class, op, outcome, failure})
 	}
@@ -260,4 +261,61 @@ func vhx(b []byte) string {
 		return "-"
 	}
 	return hex.EncodeToString(b)
+}
+
+// vReplay returns the fields of the op in VERIF_REPLAY ("" when the run is not a replay):
+// the key=value tokens of a line like `filter display=true record=false delay=5ms chunks=3,17,4096 stream=<hex>`.
+func vReplay(kind string) map[string]string {
+	op := os.Getenv("VERIF_REPLAY")
+	if op == "" || !strings.HasPrefix(op, kind+" ") {
+		return nil
+	}
+	kv := map[string]string{}
+	for _, tok := range strings.Fields(op)[1:] {
+		if i := strings.IndexByte(tok, '='); i > 0 {
+			kv[tok[:i]] = tok[i+1:]
+		}
+	}
+	return kv
+}
+
+func vUnhx(s string) []byte {
+	if s == "-" {
+		return nil
+	}
+	b, _ := hex.DecodeString(s)
+	return b
+}
+
+func vInts(s string) []int {
+	var out []int
+	for _, t := range strings.Split(s, ",") {
+		n, err := strconv.Atoi(t)
+		if err == nil && n > 0 {
+			out = append(out, n)
+		}
+	}
+	if len(out) == 0 {
+		out = []int{4096}
+	}
+	return out
+}
+
+func vIntsText(xs []int) string {
+	var parts []string
+	for _, x := range xs {
+		parts = append(parts, strconv.Itoa(x))
+	}
+	return strings.Join(parts, ",")
+}
+
+// vFramesOf lists the valid frames of a stream by sequential framing with the real handler.
+func vFramesOf(start time.Time, bs []byte) [][]byte {
+	var frames [][]byte
+	for _, m := range vSequential(start, bs) {
+		if m.MessageType >= 0 {
+			frames = append(frames, m.RawData)
+		}
+	}
+	return frames
 }
